@@ -2631,8 +2631,11 @@ class MultiplexedGate(Gate):
 
     def __init__(self, tgates: Sequence[Gate], ncontrols: int):
         if len(tgates) != 2**ncontrols:
-            assert ValueError(
+            raise ValueError(
                 f"require {2**ncontrols} target gates for {ncontrols} control qubits")
+        if any(g.num_wires != tgates[0].num_wires for g in tgates):
+            raise ValueError(
+                "all target gates must act on the same number of wires")
         self.tgates = list(tgates)
         self.ncontrols = ncontrols
         self.control_qubits = []
